@@ -52,6 +52,7 @@ package pattern
 
 //@ func NewPathComponentPagePattern(url, digitStart, digitEnd)
 //@   requires url != nil && 0 <= digitStart && digitStart <= digitEnd && digitEnd <= len(url.Path)
+//@   requires [C17] rxSpan(rxNumber, url.Path, digitStart, digitEnd) || url.Path[digitStart:digitEnd] == "1"
 //@   ensures (result1 == nil) == (result0 != nil)
 //@   ensures implies(result1 == nil, result0.url != nil && fresh(result0) && fresh(result0.url))
 //@   ensures implies(result1 == nil, wfPathIdx(result0))
